@@ -1164,8 +1164,8 @@ func runC22(tier, replay string) {
 	r.Assume("object state = ListObjectVersions (ids, flags, size, ETag, class, LastModified) + tags per version + pending uploads and their parts of all buckets, read from the real storage below the middleware; outbox rows are read directly from notification_outbox_entries")
 	r.Assume("delivery oracle compares only timestamps pithos itself wrote (claim now = updated_at, released next_attempt_at, release now); the wall clock is used for the drain watchdog only (expiry = inconclusive); a pump mutation wakes the dispatcher between its 1 s idle ticks")
 	root := r.Rand()
-	nHist, nMut := r.N(8, 40), r.N(30, 60)
-	nDel := r.N(16, 60)
+	nHist, nMut := r.N(8, 100), r.N(30, 60)
+	nDel := r.N(16, 200)
 	watchdog := 60 * time.Second
 
 	if replay != "" {
@@ -1224,7 +1224,7 @@ func runC22(tier, replay string) {
 	var wg sync.WaitGroup
 	var mu sync.Mutex
 	var problems []string
-	sem := make(chan struct{}, 4)
+	sem := make(chan struct{}, r.N(4, 8))
 	for i := 0; i < nHist; i++ {
 		wg.Add(1)
 		sem <- struct{}{}
